@@ -42,6 +42,20 @@ def opOfJson (j : Json) : Except String Op := do
   | "anneal" => pure (.anneal (← nat "i") (← optNat j "init") .pusom {} 1)
   | "client" => pure (.client (← nat "i"))
   | "sub" => pure (.sub (← nat "i") (← j.getObjVal? "path" >>= natList))
+  | "set" => pure .set
+  | "iupd" => pure (.iupd (← nat "recv") (← optNat j "other") {})
+  | "imuldict" => pure (.imulDict (← nat "recv") (← nat "other") {})
+  | "ipow" => pure (.ipow (← nat "recv") (List.replicate ((← nat "n") - 1) {}))
+  | "clear" => pure (.clear (← nat "recv"))
+  | "refresh" => pure (.refresh (← nat "recv"))
+  | "binop" => pure (.binop (← nat "a") (← optNat j "other") {})
+  | "rsub" => pure (.rsub (← nat "a") (← optNat j "other") {} {})
+  | "muldict" => pure (.mulDict (← nat "a") (← nat "b") {})
+  | "pow" => pure (.pow (← nat "a") (List.replicate ((← nat "n") - 1) {}))
+  | "rebuild" => pure (.rebuild (← nat "a") {})
+  | "newlike" => pure (.newLike (← nat "a") (← j.getObjVal? "extras" >>= natList) {})
+  | "readonly" => pure (.readOnly (← j.getObjVal? "args" >>= natList) (← j.getObjVal? "res" >>= Json.getBool?))
+  | "sat" => pure (.sat (← optNat j "first") (← j.getObjVal? "others" >>= natList) {})
   | s => throw s!"bad history op {s}"
 
 def graphJson (g : List (String × List Nat)) : Json :=
